@@ -75,6 +75,7 @@ class Sink:
             rec["exc"] = type(e).__name__
         rec["num"] = [x if math.isfinite(x) else repr(x) for x in rec["num"]]
         self.fh.write(json.dumps(rec, separators=(",", ":")) + "\n")
+        self.fh.flush()                      # a compiled call that corrupts memory may abort the process: keep what was recorded
         return rec
 
     def close(self):
